@@ -138,7 +138,7 @@ var encSections = []corpusSection{
 		c := gen.DefaultTypeCfg()
 		c.MaxDepth = 2
 		t := gen.FormType(r, form, c, 1)
-		if ptr && req == schema.Optional && (t.IsScalar() || t.K == schema.String) {
+		if ptr && req == schema.Optional && (t.IsScalar() || t.K == schema.String || t.K == schema.Binary) {
 			t = schema.PtrTo(t)
 		}
 		s := gen.Single(uint16(1+r.Intn(30)), req, t)
